@@ -202,49 +202,78 @@ def _hasattr_key(test_text):
     return None
 
 
-def _required_lists(check_fn):
-    """Literal attribute lists iterated in _module_check whose loop records a
-    missing attribute that leads to a raise.  Returns (required, guarded)
-    where guarded maps hasattr-guard attr -> list."""
+def _literal_list(expr, fn, mod=None):
+    v = literal(expr)
+    if isinstance(v, (list, tuple)) and all(isinstance(x, str) for x in v):
+        return list(v)
+    if isinstance(expr, ast.Name):
+        for st in walk_no_nested(fn, False):
+            if isinstance(st, ast.Assign) and norm(st.targets[0]) == expr.id:
+                return _literal_list(st.value, fn, None)
+        if mod is not None and expr.id in mod.assigns:
+            return _literal_list(mod.assigns[expr.id][-1], fn, None)
+    return None
+
+
+def _required_lists(check_fn, mod=None):
+    """Attribute sets whose absence leads to `raise ModelIncompleteError`.
+    A collector list is filled with the names a for which
+    `not hasattr(self.module, a)` (loop + append, unrolled appends, or a
+    list comprehension) and a non-empty collector raises.  Returns
+    (required, guarded) where guarded maps the attribute of an enclosing
+    `hasattr(self.module, <attr>)` guard to the list it protects."""
     required, guarded = [], {}
-    for n in walk_no_nested(check_fn, False):
-        if not isinstance(n, ast.For):
-            continue
-        lst = literal(n.iter)
-        if not (isinstance(lst, list) and all(isinstance(x, str)
-                                              for x in lst)):
-            continue
-        var = n.target.id if isinstance(n.target, ast.Name) else None
-        tests = [norm(x.test) for x in ast.walk(n)
-                 if isinstance(x, ast.If)]
-        if f"not hasattr(self.module, {var})" not in tests:
-            continue
-        # the collected list must be followed by a raise on non-empty
-        coll = None
-        for x in ast.walk(n):
-            if isinstance(x, ast.Call) and isinstance(x.func, ast.Attribute) \
-                    and x.func.attr == "append" and isinstance(
-                        x.func.value, ast.Name):
-                coll = x.func.value.id
-        raises = False
-        blk = getattr(n, "_parent")
-        for fld in ("body", "orelse"):
-            b = getattr(blk, fld, [])
-            if any(s is n for s in b):
-                after = b[[i for i, s in enumerate(b) if s is n][0] + 1:]
-                for s in after:
-                    if isinstance(s, ast.If) and norm(s.test) == coll and any(
-                            isinstance(y, ast.Raise) for y in s.body):
-                        raises = True
-        if not raises:
-            continue
-        conds = conditions_at(n)
-        hk = [_hasattr_key(c.text) for c in conds if c.pol]
-        hk = [h for h in hk if h]
-        if hk:
-            guarded.setdefault(hk[0], []).extend(lst)
+    raises = [r for r in walk_no_nested(check_fn, False)
+              if isinstance(r, ast.Raise) and "ModelIncompleteError" in
+              norm(r)]
+    for r in raises:
+        conds = conditions_at(r)
+        colls = [a.text for a in conds if a.pol and isinstance(
+            a.node, ast.Name)]
+        outer = [_hasattr_key(a.text) for a in conds if a.pol]
+        outer = [h for h in outer if h]
+        attrs = []
+        for coll in colls:
+            for n in walk_no_nested(check_fn, False):
+                # collector.append(x)
+                if isinstance(n, ast.Call) and isinstance(
+                        n.func, ast.Attribute) and n.func.attr == "append" \
+                        and norm(n.func.value) == coll and n.args:
+                    x = n.args[0]
+                    cs = conditions_at(n)
+                    if isinstance(x, ast.Constant) and isinstance(
+                            x.value, str):
+                        if any((not a.pol) and _hasattr_key(a.text) ==
+                               x.value for a in cs):
+                            attrs.append(x.value)
+                    elif isinstance(x, ast.Name):
+                        loop = n
+                        while loop is not None and not (
+                                isinstance(loop, ast.For) and norm(
+                                    loop.target) == x.id):
+                            loop = getattr(loop, "_parent", None)
+                        if loop is not None and any(
+                                (not a.pol) and a.text ==
+                                f"hasattr(self.module, {x.id})" for a in cs):
+                            lst = _literal_list(loop.iter, check_fn, mod)
+                            if lst:
+                                attrs.extend(lst)
+                # collector = [a for a in L if not hasattr(self.module, a)]
+                if isinstance(n, ast.Assign) and norm(n.targets[0]) == coll \
+                        and isinstance(n.value, ast.ListComp) and len(
+                            n.value.generators) == 1:
+                    g = n.value.generators[0]
+                    var = norm(g.target)
+                    if norm(n.value.elt) == var and any(
+                            norm(c) == f"not hasattr(self.module, {var})"
+                            for c in g.ifs):
+                        lst = _literal_list(g.iter, check_fn, mod)
+                        if lst:
+                            attrs.extend(lst)
+        if outer:
+            guarded.setdefault(outer[0], []).extend(attrs)
         else:
-            required.extend(lst)
+            required.extend(attrs)
     return required, guarded
 
 
@@ -260,7 +289,7 @@ def r2_required_attributes(ctx):
     init_fn = meths["__init__"]
     for f in (check_fn, auto_fn, init_fn):
         ctx.analysed(f)
-    required, guarded = _required_lists(check_fn)
+    required, guarded = _required_lists(check_fn, core)
     ctx.floor("required attributes in _module_check", len(required), 5)
     # attributes auto-completed when absent
     auto = set()
